@@ -21,7 +21,9 @@ import sys
 import threading
 from decimal import Decimal
 
-sys.path.insert(0, '/repo')
+import os as _os
+REPO = _os.environ.get('VERIF_REPO', '/repo')
+sys.path.insert(0, REPO)
 
 import sdc11073.definitions_sdc  # noqa: F401,E402  (protocol registry)
 from sdc11073 import observableproperties as properties  # noqa: E402
@@ -29,8 +31,8 @@ from sdc11073.consumer.consumerimpl import SdcConsumer  # noqa: E402
 from sdc11073.mdib import ConsumerMdib  # noqa: E402
 from sdc11073.xml_types.addressing_types import HeaderInformationBlock  # noqa: E402
 
-MDIB_1 = '/repo/tests/70041_MDIB_Final.xml'
-MDIB_2 = '/repo/tests/mdib_two_mds.xml'
+MDIB_1 = REPO + '/tests/70041_MDIB_Final.xml'
+MDIB_2 = REPO + '/tests/mdib_two_mds.xml'
 
 
 @dataclasses.dataclass
